@@ -254,7 +254,7 @@ var subReuse = ev.Register("reuse", func(c ReuseCase) error {
 	r, cleanup := fsx.Scratch("c20r-")
 	defer cleanup()
 	srcA, srcB := filepath.Join(r, "a", "src"), filepath.Join(r, "b", "src")
-	if err := fsx.Materialise(srcA, c.Tree, nil); err != nil {
+	if err := fsx.Materialise(srcA, fsx.RawNames(c.Tree), nil); err != nil {
 		return fmt.Errorf("harness: %v", err)
 	}
 	other := c.Other
@@ -327,7 +327,7 @@ var subReuse = ev.Register("reuse", func(c ReuseCase) error {
 
 func TestPropReuse(t *testing.T) {
 	ev.Check(t, subReuse, func(t *rapid.T) ReuseCase {
-		cfg := tgen.Config{MaxNodes: 8, Links: true, IgnoreNames: true}
+		cfg := tgen.Config{MaxNodes: 8, Links: true, IgnoreNames: true, Awkward: true}
 		return ReuseCase{Tree: tgen.Gen(t, cfg), Other: tgen.Gen(t, cfg), Ignore: rapid.Bool().Draw(t, "ignore"), Overlap: rapid.Bool().Draw(t, "overlap")}
 	})
 }
